@@ -6,13 +6,13 @@ require (
 	github.com/Dash-Industry-Forum/livesim2 v0.0.0
 	github.com/Eyevinn/dash-mpd v0.12.0
 	github.com/Eyevinn/mp4ff v0.47.0
+	github.com/beevik/etree v1.5.0
 	github.com/go-chi/chi/v5 v5.2.1
 )
 
 require (
 	github.com/Comcast/gots/v2 v2.2.1 // indirect
 	github.com/barkimedes/go-deepcopy v0.0.0-20220514131651-17c30cfc62df // indirect
-	github.com/beevik/etree v1.5.0 // indirect
 	github.com/beorn7/perks v1.0.1 // indirect
 	github.com/cespare/xxhash/v2 v2.3.0 // indirect
 	github.com/danielgtaylor/huma/v2 v2.31.0 // indirect
